@@ -37,6 +37,9 @@ def corpus():
     out.append({'case': {'howl': {'sessions': 2, 'order': [0, 1], 'panic': 0, 'signal': True}}, 'stream': 'howl'})
     out.append({'case': {'howl': {'sessions': 2, 'order': [1, 0], 'panic': 1, 'signal': True}}, 'stream': 'howl'})
     out.append({'case': {'howl': {'sessions': 1, 'order': [0], 'panic': 0, 'signal': False}}, 'stream': 'howl'})
+    # the process was started with SIGINT ignored (background job of a non-interactive shell): the interrupt must still be honoured
+    out.append({'case': {'howl': {'sessions': 1, 'order': [0], 'signal': True, 'ignored': True}}, 'stream': 'howl'})
+    out.append({'case': {'howl': {'sessions': 0, 'order': [], 'signal': True, 'ignored': True}}, 'stream': 'howl'})
     out.append({'case': {'wg': ['add', 'poll', 'drop', 'poll']}}); out.append({'case': {'wg': ['add', 'add', 'drop', 'poll', 'done', 'poll']}})
     out.append({'case': {'wg': ['poll']}}); out.append({'case': {'wg': ['add', 'poll', 'done', 'poll']}})
     out.append({'case': {'wg': ['add', 'add', 'done', 'poll', 'done', 'poll', 'poll']}})
@@ -66,6 +69,7 @@ def spec_check(case, out):
         if out.get('hang') or 'error' in out: return f'the howl scenario did not finish: {str(out)[:160]}'
         if out.get('returned_early'): return f'howl returned while a session was still open ({sc})'
         if out.get('served_after_interrupt'): return f'a connection made after the interrupt was served ({sc})'
+        if out.get('accepting_after_interrupt') and sc['sessions'] - (1 if sc.get('panic') is not None else 0) >= 1: return f'2 s after the interrupt the server still accepts connections while sessions are open ({sc})'
         if not out.get('returned_after_all'): return f'howl did not return within 3 s after the last session ended ({sc})'
         return None
     if 'wg' in case:
